@@ -3,6 +3,7 @@ package main
 import (
 	"encoding/json"
 	"fmt"
+	z80 "github.com/koron-go/z80"
 	"sync/atomic"
 
 	"github.com/koron-go/z80/internal/verif/obs"
@@ -31,7 +32,10 @@ type c09Params struct {
 	Fill  int    `json:"fill"` // 0 background; 1: A planted at HL+-Plant
 	Plant int    `json:"plant"`
 	IOX   uint8  `json:"io_x"`
-	Salt  uint32 `json:"salt"`
+	// NoIO: the CPU has no IO device (CPU.IO == nil): input transfers store 0, output transfers go nowhere.
+	// Right before the operation another IO-less CPU executes OUT (C),A on the same port number.
+	NoIO bool   `json:"no_io_device,omitempty"`
+	Salt uint32 `json:"salt"`
 }
 
 type c09Runner struct {
@@ -40,7 +44,9 @@ type c09Runner struct {
 }
 
 func newC09Runner(bg *[65536]uint8) *c09Runner {
-	return &c09Runner{w: newWorker(bg), spec: obs.NewMem(bg)}
+	r := &c09Runner{w: newWorker(bg), spec: obs.NewMem(bg)}
+	r.w.enableFrame()
+	return r
 }
 
 func bit(v uint8, n uint) uint8 { return (v >> n) & 1 }
@@ -68,6 +74,16 @@ func (r *c09Runner) run(p *c09Params) ([]string, int) {
 	}
 	if p.Fill == 1 {
 		cs.Pokes = append(cs.Pokes, Poke{p.HL + step(p.Plant), []uint8{p.A}})
+	}
+	if p.NoIO {
+		cs.Env = 2
+		pre := z80.CPU{Memory: z80.DumbMemory{0xED, 0x79, 0xED, 0x79}}
+		pre.AF.Hi, pre.BC.Lo, pre.BC.Hi = 0xA7, uint8(p.BC), 0x55
+		func() {
+			defer func() { recover() }()
+			pre.Step()
+			pre.Step()
+		}()
 	}
 	w.setup(&cs)
 	r.spec.Reset()
@@ -124,7 +140,11 @@ func (r *c09Runner) run(p *c09Params) ([]string, int) {
 				selfMod = true
 			}
 			v := w.rio.InValue(uint8(p.BC), i)
-			specPorts = append(specPorts, obs.PortAccess{Out: false, Port: uint8(p.BC), Val: v})
+			if p.NoIO {
+				v = 0
+			} else {
+				specPorts = append(specPorts, obs.PortAccess{Out: false, Port: uint8(p.BC), Val: v})
+			}
 			r.spec.Poke(dst, v)
 			lastByte = v
 		}
@@ -132,7 +152,9 @@ func (r *c09Runner) run(p *c09Params) ([]string, int) {
 		n = count
 		for i := 0; i < n; i++ {
 			lastByte = r.spec.Peek(p.HL + step(i))
-			specPorts = append(specPorts, obs.PortAccess{Out: true, Port: uint8(p.BC), Val: lastByte})
+			if !p.NoIO {
+				specPorts = append(specPorts, obs.PortAccess{Out: true, Port: uint8(p.BC), Val: lastByte})
+			}
 		}
 	}
 	// ---- run the implementation, refz80 in lock-step ----
@@ -146,8 +168,12 @@ func (r *c09Runner) run(p *c09Params) ([]string, int) {
 		w.iio.Log = w.iio.Log[:0]
 		w.rio.Log = w.rio.Log[:0]
 		pre := exp
+		w.frame = w.frame[:0]
 		res := w.stepBothNoSetup(&cur)
 		steps++
+		if d := w.frameDiff(&cur, res); d != nil {
+			return append([]string{fmt.Sprintf("Step %d of the operation (BC=%02X%02X before it):", steps, pre.B, pre.C)}, d...), steps
+		}
 		if d := w.compare(&cur, res, AspState|AspReads|AspWrites|AspPortLog); d != nil {
 			return append([]string{fmt.Sprintf("Step %d of the operation (BC=%02X%02X HL=%02X%02X DE=%02X%02X before it) disagrees with refz80:", steps, pre.B, pre.C, pre.H, pre.L, pre.D, pre.E)}, d...), steps
 		}
@@ -171,6 +197,9 @@ func (r *c09Runner) run(p *c09Params) ([]string, int) {
 			okc = dataReads == 0 && len(w.imem.Writes) == 1 && len(w.iio.Log) == 1 && !w.iio.Log[0].Out
 		case 3:
 			okc = dataReads == 1 && len(w.imem.Writes) == 0 && len(w.iio.Log) == 1 && w.iio.Log[0].Out
+		}
+		if p.NoIO && kind >= 2 {
+			okc = len(w.iio.Log) == 0 && ((kind == 2 && dataReads == 0 && len(w.imem.Writes) == 1) || (kind == 3 && dataReads == 1 && len(w.imem.Writes) == 0))
 		}
 		if !okc {
 			return []string{fmt.Sprintf("Step %d did not move exactly one element: %d data reads, writes %s, ports %s", steps, dataReads, fmtAcc(w.imem.Writes), fmtPorts(w.iio.Log))}, steps
@@ -316,6 +345,7 @@ func c09Points(c *Ctx, op uint8) []c09Params {
 		}
 		for _, hl := range ptrs {
 			add(c09Params{BC: bc | cport, HL: hl, DE: 0x5000, A: 0x5A, F: 0x00, PC: 0x0100, IOX: 0x21})
+			add(c09Params{BC: bc | cport, HL: hl, DE: 0x5000, A: 0x5A, F: 0x00, PC: 0x0100, IOX: 0x21, NoIO: true})
 			add(c09Params{BC: bc | cport, HL: hl, DE: 0x5000, A: 0xA5, F: 0xFF, PC: 0x0100, IOX: 0xFE})
 		}
 		if kind == 0 {
@@ -375,7 +405,7 @@ func checkC09(c *Ctx) {
 	for _, op := range ops {
 		pts = append(pts, c09Points(c, op)...)
 	}
-	c.Rule = "16 block encodings x parameter lattice (BC in {0,1,2,3,255,256,257,65535} resp. B in {0,1,2,3,255,128}; HL/DE over W16 and neighbours; overlap distances -3..+3 at 0x4000 and across 0xFFFF; source/destination covering the instruction bytes at PC 0100/FFFE/FFFF; for searches the byte planted at position 0/1/2/last/absent x 6 A values; 3 ports; thorough: BC sweep 4..1024); each point run to completion through real Steps. Oracles: closed-form specification of the whole operation (memory image, counters, pointers, PC, flags, port transfers, number of Steps), refz80 in lock-step on every Step, per-Step one-element contract. Non-trivial: every point transfers or compares at least one element (counted)."
+	c.Rule = "16 block encodings x parameter lattice (the port forms also on a CPU without IO device, right after another IO-less CPU wrote to the same port number; BC in {0,1,2,3,255,256,257,65535} resp. B in {0,1,2,3,255,128}; HL/DE over W16 and neighbours; overlap distances -3..+3 at 0x4000 and across 0xFFFF; source/destination covering the instruction bytes at PC 0100/FFFE/FFFF; for searches the byte planted at position 0/1/2/last/absent x 6 A values; 3 ports; thorough: BC sweep 4..1024); each point run to completion through real Steps. Oracles: closed-form specification of the whole operation (memory image, counters, pointers, PC, flags, port transfers, number of Steps), refz80 in lock-step on every Step, per-Step one-element contract. Non-trivial: every point transfers or compares at least one element (counted)."
 	c.Bound = "parameter lattice " + c.Tier
 	bg := obsBackground(c)
 	runners := make([]*c09Runner, 16)
